@@ -223,7 +223,7 @@ func genC02(seed uint64, run int, tier string) Scenario {
 	}
 	sc.Ops = append(sc.Ops, NCOp{Kind: "close"})
 	sc.fitTimeouts()
-	sc.CutEnum = !faulty && (run*7+run/16)%8 == 3
+	sc.CutEnum = !faulty && pickCutEnum(run, 8)
 	if sc.Net.JoinMsgs && n >= 2 && r.IntN(2) == 0 {
 		// one reply comes just after its call has given up, back to back with the next reply: a
 		// read may then carry the end of one message and the beginning of the next
@@ -366,6 +366,16 @@ func coveredBy(res, src string) (bool, int) {
 	return true, -1
 }
 
+// noteCutBase records the stream length of a base run that is to be cut-enumerated from offset from.
+func (sc *NCSession) noteCutBase(env *Env, nr *NCRun, from int) {
+	if sc.CutEnum {
+		sc.BaseEmitted, sc.CutFrom = nr.Tr.Emitted(), from
+	}
+	if len(sc.Net.CutAt) > 0 {
+		env.Fault("cut-enum", 1)
+	}
+}
+
 // expandNCCuts is the cut enumeration of a NETCONF base scenario (see cutLists).
 func expandNCCuts(quickMax int) func(base Scenario, res *Result, tier string) []Scenario {
 	return func(base Scenario, res *Result, tier string) []Scenario {
@@ -398,12 +408,7 @@ func runC02(env *Env, s Scenario) {
 	}
 	out := env.K.Run(done, sc.Deadline(), sc.readDelay()*20+time.Millisecond)
 	env.Finish(out)
-	if sc.CutEnum {
-		sc.BaseEmitted, sc.CutFrom = nr.Tr.Emitted(), nr.OpenRec.Delivered
-	}
-	if len(sc.Net.CutAt) > 0 {
-		env.Fault("cut-enum", 1)
-	}
+	sc.noteCutBase(env, nr, nr.OpenRec.Delivered)
 	env.Context = nr.Summary
 	env.Res.Shape = fmt.Sprintf("%s n=%d echo=%v seg=%s lat=%s rs=%d", sc.Class, len(sc.Refs), sc.Server.Echo, sc.Net.SegMode, sc.Net.LatMode, sc.ReadSize)
 	env.Res.Nontrivial = true
